@@ -15,7 +15,7 @@
   model on the payloads in arrival order.  The file only wires the existing models together, so the
   theorems of Rtp/Props/Pipeline.lean are compositions of C06 (packet train), C01 (wire round
   trip, through Rtp/Proofs/PacketizerBridge.lean), C08 (fragment ≤ MTU) and the codec round trips
-  C16 / C11 / C10 / C12.
+  C16 (G.711/G.722, Opus) / C11 (VP8) / C12 (VP9) / C10 (H264) / C13 + C15 (AV1) / C14 (H265).
 
   Core Lean only (linked into rtpmodel).
 -/
